@@ -15,7 +15,7 @@ answers:
 namespace Driver.Dom.Filter
 open Elk.Filter Driver
 
-def tag : String := "flt"
+def tag : String := "tfl"
 
 inductive Item where
   | suite (s : Suite)
